@@ -504,7 +504,10 @@ func c15Main(seed uint64, n int, outDir, repo string) error {
 	}
 	for _, pr := range [][2]string{{"a = 1", "b = 2"}, {"", "x"}, {"x", ""}, {"if a { b }", "else_ = 1"}, {"f(1)", "(2)"}, {"a", "[1]"}, {"a", "-b"}, {"a =", "1"},
 		{"func f() { return 1 }", "f()"}, {"x = 1 // c", "y"}, {"x = 1 /* c */", "y"}, {"a\n\n", "b"}, {"switch a { case 1: b }", "c"}, {"a = {\"k\": 1}", "{\"j\": 2}"},
-		{"return", "1"}, {"a++", "b"}, {"a", "++b"}, {"x = [1,\n2]", "y = [3,\n4]"}} {
+		{"return", "1"}, {"a++", "b"}, {"a", "++b"}, {"x = [1,\n2]", "y = [3,\n4]"},
+		// a first text that ends inside something unterminated: if it is accepted at all, it must not swallow the second
+		{"a = 1 /* note", "b = 2"}, {"/*", "b"}, {"a /*/", "b"}, {"a = 1 /* x *", "b = 2"}, {"a = \"open", "b = 2"}, {"a = `raw", "b = 2"}, {"a = 'c", "b = 2"}, {"a = 1 #", "b = 2"},
+		{"a = 1 //", "b = 2"}, {"a = 1 /* c */ /*", "b = 2"}, {"a = \"s\\", "b = 2"}, {"a = 1 /", "*b"}} {
 		cases = append(cases, c15Case{Kind: "pair", A: enc(pr[0]), B: enc(pr[1])})
 	}
 	cb, _ := json.Marshal(cases)
